@@ -18,7 +18,8 @@
 EXTENDS PipelineFlow_Contract, TLC
 
 CONSTANTS
-    DefSets,                 \* filter-definition lists a configuration may have
+    DefSets,                 \* filter-definition lists the main pipeline may have
+    DefSetsB(_), DefSetsA(_), \* main list -> filter-definition lists the before / after pipeline may have
     HasBSet, HasASet,        \* subsets of BOOLEAN: with / without a before (after) pipeline
     NodesB, NodesM, NodesA,  \* node variants of the before / main / after flow
     MaxB, MaxM, MaxA,        \* maximal flow lengths
@@ -29,7 +30,7 @@ CONSTANTS
 VARIABLES
     ph,       \* "build" | "run" | "done"
     bseg,     \* flow under construction: "b", "m", "a"
-    cfg,      \* [defs, hasB, hasA, b, m, a]: the configuration (three pipeline specs sharing `defs`)
+    cfg,      \* [defs, db, da, hasB, hasA, b, m, a]: the configuration (three pipeline specs, each with its filter list)
     acc,      \* verdicts of Spec.Validate for the three specs
     seg,      \* HandleWithBeforeAfter: which doHandle call is running
     i,        \* doHandle: loop index
@@ -78,7 +79,8 @@ KeepsValid(defs, flow) == \A rd \in Readings : ValidFlow(rd, defs, flow)
 Init ==
     /\ ph = "build"
     /\ \E d \in DefSets, hb \in HasBSet, ha \in HasASet :
-          cfg = [defs |-> d, hasB |-> hb, hasA |-> ha, b |-> <<>>, m |-> <<>>, a |-> <<>>]
+          \E sb \in (IF hb THEN DefSetsB(d) ELSE {<<>>}), sa \in (IF ha THEN DefSetsA(d) ELSE {<<>>}) :
+             cfg = [defs |-> d, db |-> sb, da |-> sa, hasB |-> hb, hasA |-> ha, b |-> <<>>, m |-> <<>>, a |-> <<>>]
     /\ bseg = "a"
     /\ acc = [b |-> TRUE, m |-> TRUE, a |-> TRUE]
     /\ seg = "-" /\ i = 0 /\ next = "" /\ result = "" /\ sawEnd = FALSE /\ stats = <<>>
@@ -93,7 +95,7 @@ AddNode ==
     /\ ph = "build" /\ SegUsed(bseg) /\ Len(cfg[bseg]) < MaxOf(bseg)
     /\ \E n \in NodesOf(bseg) :
           LET f == <<n>> \o cfg[bseg] IN
-          /\ OnlyValid => KeepsValid(cfg.defs, f)
+          /\ OnlyValid => KeepsValid(DefsOf(cfg, bseg), f)
           /\ cfg' = [cfg EXCEPT ![bseg] = f]
     /\ UNCHANGED <<ph, bseg>> /\ Frozen
 
@@ -108,7 +110,7 @@ FirstSeg(c) == IF c.hasB THEN "b" ELSE "m"
 (* request is handled                                                                               *)
 Validate ==
     /\ ph = "build" /\ bseg = "b"
-    /\ LET v == [sg \in {"b", "m", "a"} |-> ~SegUsed(sg) \/ ImplValidate(cfg.defs, cfg[sg])] IN
+    /\ LET v == [sg \in {"b", "m", "a"} |-> ~SegUsed(sg) \/ ImplValidate(DefsOf(cfg, sg), cfg[sg])] IN
        /\ acc' = v
        /\ IF v["b"] /\ v["m"] /\ v["a"]
           THEN /\ ph' = "run" /\ seg' = FirstSeg(cfg) /\ i' = 1
@@ -116,7 +118,7 @@ Validate ==
     /\ UNCHANGED <<bseg, cfg, next, result, sawEnd, stats>>
 
 (* ---- doHandle: one iteration of `for i := range flow` ------------------------------------------*)
-CurFlow == EffFlow(cfg.defs, cfg[seg])              \* p.flow after reload()
+CurFlow == EffFlow(DefsOf(cfg, seg), cfg[seg])            \* p.flow after reload()
 
 Lookup(n, r) == IF JumpOf(n, r) = NoJump THEN "" ELSE n.jump[r]     \* node.JumpIf[result]
 
